@@ -231,7 +231,7 @@ def conclude(pid, tier, seed, prop, reg, funcs, all_obs, results, texts, native,
         if len(samples) >= 6:
             break
         if results[i]['backend'] != 'trivial' and not any(s['obligation'] == ob_key(ob) for s in samples):
-            samples.append(dict(obligation=ob_key(ob), goal=str(z3.simplify(ob.goal))[:300], path_conditions=len(ob.pc),
+            samples.append(dict(obligation=ob_key(ob), goal=getattr(ob, 'goal_str', '?'), path_conditions=getattr(ob, 'npc', 0),
                                 smt2_bytes=results[i].get('size'), verdict=results[i]['verdict'],
                                 backend=results[i]['backend'], seconds=round(results[i]['seconds'], 3)))
     trusted = trusted_base(reg, funcs)
